@@ -548,13 +548,13 @@ class GraphAddNode(Contract):
                 forall([t], imp(rng(t, 0, len(NODE_TYPES)), z3.And(
                     h.at(X.by_type, t) == h0.at(X0.by_type, t),
                     z3.If(t == ty, appended(h0, h, h0.at(X0.by_type, t), x), unchanged(h0, h, h0.at(X0.by_type, t))))),
-                    patterns=[h.at(X.by_type, t)]))),
+                    patterns=[h.at(X.by_type, t), h0.at(X0.by_type, t)]))),
             ("operation-nodes-listed-under-their-job", z3.And(
                 X.by_job == X0.by_job,
                 forall([t], imp(rng(t, 0, it.J), z3.And(
                     h.at(X.by_job, t) == h0.at(X0.by_job, t),
                     z3.If(z3.And(ty == T_OP, t == it.jid(o)), appended(h0, h, h0.at(X0.by_job, t), x),
-                          unchanged(h0, h, h0.at(X0.by_job, t))))), patterns=[h.at(X.by_job, t)]))),
+                          unchanged(h0, h, h0.at(X0.by_job, t))))), patterns=[h.at(X.by_job, t), h0.at(X0.by_job, t)]))),
             ("machine-table-keeps-its-rows", z3.And(X.by_machine == X0.by_machine, forall([t], imp(
                 rng(t, 0, it.NM), h.at(X.by_machine, t) == h0.at(X0.by_machine, t)), patterns=[h.at(X.by_machine, t)]))),
             ("single-machine-operation-nodes-listed-under-their-machine", z3.And(
@@ -562,9 +562,10 @@ class GraphAddNode(Contract):
                     z3.Select(h.get("$$mpos", g), X0.n) == h0.len(h0.at(X0.by_machine, mach0(h0, o))),
                     forall([t], imp(rng(t, 0, it.NM), z3.If(t == mach0(h0, o), appended(h0, h, h0.at(X0.by_machine, t), x),
                                                             unchanged(h0, h, h0.at(X0.by_machine, t)))),
-                           patterns=[h.at(X.by_machine, t)]))),
+                           patterns=[h.at(X.by_machine, t), h0.at(X0.by_machine, t)]))),
                 imp(ty != T_OP, z3.And(h.get("$$mpos", g) == h0.get("$$mpos", g), forall([t], imp(
-                    rng(t, 0, it.NM), unchanged(h0, h, h0.at(X0.by_machine, t))), patterns=[h.at(X.by_machine, t)]))),
+                    rng(t, 0, it.NM), unchanged(h0, h, h0.at(X0.by_machine, t))),
+                    patterns=[h.at(X.by_machine, t), h0.at(X0.by_machine, t)]))),
                 imp(z3.Or(ty != T_OP, it.nmach(o) == 1), forall([bv("nk")], imp(
                     bv("nk") != X0.n, z3.Select(h.get("$$mpos", g), bv("nk")) == z3.Select(h0.get("$$mpos", g), bv("nk"))),
                     patterns=[z3.Select(h.get("$$mpos", g), bv("nk"))])))),
@@ -1253,3 +1254,620 @@ class BuildDisjunctiveGraph(Contract):
             ("exactly-the-prescribed-edges-correctly-typed", forall([u, v], ge(h, X.nx, u, v) == want,
                                                                      patterns=[z3.Select(h.get("$$ge", X.nx), Pair(u, v))])),
         ] + graph_ok(h, g)
+
+
+# ---------------------------------------------------------------------------
+# agent-task graph: machine nodes and their edges, same-job edges
+# ---------------------------------------------------------------------------
+def machine_nodes(h, g, upto=None):
+    """nodes N .. N+upto-1 are the machine nodes of machines 0 .. upto-1, listed in that order in the MACHINE row"""
+    X = G(h, g)
+    it = Inst(h, X.I)
+    m = bv("mm")
+    n = it.NM if upto is None else upto
+    nd = X.node(it.N + m)
+    row = h.at(X.by_type, T_MACHINE)
+    return z3.And(
+        h.len(row) == n,
+        forall([m], imp(rng(m, 0, n), z3.And(h.get("node_type", nd) == T_MACHINE, h.get("_machine_id#none", nd) == 0,
+                                             h.get("_machine_id", nd) == m, h.at(row, m) == nd)),
+               patterns=[h.at(X.nodes, it.N + m), h.at(h.at(X.by_type, T_MACHINE), m)]))
+
+
+def machine_rows_kept(h0, h, g):
+    X0 = G(h0, g)
+    it = Inst(h0, X0.I)
+    t = bv("tt")
+    return z3.And(h.get("$$mpos", g) == h0.get("$$mpos", g),
+                  forall([t], imp(rng(t, 0, it.NM), unchanged(h0, h, h0.at(X0.by_machine, t))), patterns=[h0.at(X0.by_machine, t)]))
+
+
+def machine_rows_hyp(h, g):
+    X = G(h, g)
+    it = Inst(h, X.I)
+    return [("non-flexible-instance", non_flexible(h, X.I)), ("machine-rows", machine_rows(h, g, X.I, it.N))]
+
+
+@register
+class AddMachineNodes(_Builder):
+    name = "add_machine_nodes"
+
+    def requires(self, c):
+        h, g = c.h0, c["graph"]
+        X = G(h, g)
+        it = Inst(h, X.I)
+        return op_graph(h, g) + machine_rows_hyp(h, g) + [
+            ("only-operation-nodes-so-far", z3.And(X.n == it.N, h.len(h.at(X.by_type, T_MACHINE)) == 0))]
+
+    def modifies(self, c):
+        h, g = c.h0, c["graph"]
+        X = G(h, g)
+        return Frame(fields={"_next_node_id": [g], "$$gn": [X.nx], "$$mpos": [g]}, lists=graph_lists_frame(h, g),
+                     alloc_objects=NODE_FIELDS + ["$type"])
+
+    def ensures(self, c):
+        h0, h, g = c.h0, c.h, c["graph"]
+        X0, X = G(h0, g), G(h, g)
+        it = Inst(h0, X0.I)
+        return op_graph(h, g) + machine_rows_hyp(h, g) + [
+            ("same-graph-object", same_graph(h0, h, g)),
+            ("one-node-per-machine-after-the-operation-nodes", z3.And(X.n == it.N + it.NM, machine_nodes(h, g))),
+            ("job-and-global-type-rows-kept", z3.And(unchanged(h0, h, h0.at(X0.by_type, T_JOB)),
+                                                     unchanged(h0, h, h0.at(X0.by_type, T_GLOBAL)))),
+            ("tables-kept", tables_kept(h0, h, g)),
+            ("no-edge-changes", h.get("$$ge", X.nx) == h0.get("$$ge", X0.nx))]
+
+    @property
+    def loops(self):
+        def inv(k):
+            h0, h, g = k.h0, k.h, k["graph"]
+            X0, X = G(h0, g), G(h, g)
+            it = Inst(h0, X0.I)
+            return op_graph(h, g) + machine_rows_hyp(h, g) + [
+                ("same-graph-object", same_graph(h0, h, g)),
+                ("machine-nodes-so-far", z3.And(X.n == it.N + k.i, machine_nodes(h, g, k.i), k.n == it.NM)),
+                ("job-and-global-type-rows-kept", z3.And(unchanged(h0, h, h0.at(X0.by_type, T_JOB)),
+                                                         unchanged(h0, h, h0.at(X0.by_type, T_GLOBAL)))),
+                ("tables-kept", tables_kept(h0, h, g)),
+                ("no-edge-changes", h.get("$$ge", X.nx) == h0.get("$$ge", X0.nx))]
+
+        def mod(k):
+            h0, g = k.h0, k["graph"]
+            X0 = G(h0, g)
+            return Frame(fields={"_next_node_id": [g], "$$gn": [X0.nx], "$$mpos": [g]}, lists=graph_lists_frame(h0, g),
+                         alloc_objects=NODE_FIELDS + ["$type"])
+        return {0: LoopSpec("for machine_id in range(graph.instance.num_machines)", inv, mod)}
+
+
+def with_machine_nodes(h, g):
+    X = G(h, g)
+    it = Inst(h, X.I)
+    return [("machine-nodes-present", z3.And(X.n >= it.N + it.NM, machine_nodes(h, g)))]
+
+
+def _loop_common(self, k, lim):
+    h0, h, g = k.h0, k.h, k["graph"]
+    x = bv("gx")
+    X0 = G(h0, g)
+    return graph_ok(h, g) + [
+        ("same-graph-object", same_graph(h0, h, g)),
+        ("node-set-unchanged", forall([x], gn(h, X0.nx, x) == gn(h0, X0.nx, x), patterns=[z3.Select(h.get("$$gn", X0.nx), x)])),
+        ("edges-so-far", edges_updated(h0, h, X0.nx, self.upd(h0, g, lim)))]
+
+
+def _edge_mod(k):
+    X = G(k.h0, k["graph"])
+    return Frame(fields={"$$ge": [X.nx], "$$gn": [X.nx]})
+
+
+@register
+class AddOperationMachineEdges(_Builder):
+    """(non-flexible instances) both directions between every operation node and the node of its machine"""
+    name = "add_operation_machine_edges"
+
+    def requires(self, c):
+        h, g = c.h0, c["graph"]
+        return op_graph(h, g) + machine_rows_hyp(h, g) + with_machine_nodes(h, g)
+
+    def upd(self, h0, g, limit=None):
+        X = G(h0, g)
+        it = Inst(h0, X.I)
+
+        def f(u, v, old):
+            def om(o, m):      # o an operation node, m the node of its machine
+                cond = z3.And(rng(o, 0, it.N), rng(m - it.N, 0, it.NM), mach0(h0, op_of(h0, g, o)) == m - it.N)
+                if limit is not None:
+                    cond = z3.And(cond, limit(o, m - it.N))
+                return cond
+            return z3.If(z3.Or(om(u, v), om(v, u)), z3.IntVal(UNTYPED), old)
+        return f
+
+    def ensures(self, c):
+        h0, h, g = c.h0, c.h, c["graph"]
+        return graph_ok(h, g) + self.kept(c) + [
+            ("exactly-both-directions-between-each-operation-and-its-machine-node",
+             edges_updated(h0, h, G(h0, g).nx, self.upd(h0, g)))]
+
+    @property
+    def loops(self):
+        def outer(k):
+            it = Inst(k.h0, G(k.h0, k["graph"]).I)
+            return [("all-machines", k.n == it.NM)] + _loop_common(self, k, lambda o, m: m < k.i)
+
+        def inner(k):
+            h0, g = k.h0, k["graph"]
+            X0 = G(h0, g)
+            it = Inst(h0, X0.I)
+            m0 = k.outer[-1]
+            mp = lambda t: z3.Select(h0.get("$$mpos", g), t)  # noqa: E731
+            return [("row", z3.And(k.v("machine_node") == X0.node(it.N + m0), rng(m0, 0, it.NM),
+                                   k.v("operation_nodes_in_machine") == h0.at(X0.by_machine, m0),
+                                   k.n == h0.len(h0.at(X0.by_machine, m0))))] + \
+                _loop_common(self, k, lambda o, m: z3.Or(m < m0, z3.And(m == m0, mp(o) < k.i)))
+        return {0: LoopSpec("for machine_node in graph.nodes_by_type[NodeType.MACHINE]", outer, _edge_mod),
+                1: LoopSpec("for operation_node in operation_nodes_in_machine", inner, _edge_mod)}
+
+
+@register
+class AddMachineMachineEdges(_Builder):
+    name = "add_machine_machine_edges"
+
+    def requires(self, c):
+        h, g = c.h0, c["graph"]
+        return op_graph(h, g) + with_machine_nodes(h, g)
+
+    def upd(self, h0, g, limit=None):
+        X = G(h0, g)
+        it = Inst(h0, X.I)
+
+        def f(u, v, old):
+            a, b = u - it.N, v - it.N
+            cond = z3.And(rng(a, 0, it.NM), rng(b, 0, it.NM), a != b)
+            if limit is not None:
+                cond = z3.And(cond, limit(z3.If(a < b, a, b), z3.If(a < b, b, a)))
+            return z3.If(cond, z3.IntVal(UNTYPED), old)
+        return f
+
+    def ensures(self, c):
+        h0, h, g = c.h0, c.h, c["graph"]
+        return graph_ok(h, g) + self.kept(c) + [
+            ("exactly-both-directions-between-every-two-machine-nodes", edges_updated(h0, h, G(h0, g).nx, self.upd(h0, g)))]
+
+    @property
+    def loops(self):
+        def inv(k):
+            it = Inst(k.h0, G(k.h0, k["graph"]).I)
+            return [("all-pairs", k.n == CombN(it.NM))] + _loop_common(self, k, lambda lo, hi: CombK(it.NM, lo, hi) < k.i)
+        return {0: LoopSpec("for (machine1, machine2) in itertools.combinations(graph.nodes_by_type[NodeType.MACHINE], 2)",
+                            inv, _edge_mod)}
+
+
+@register
+class AddSameJobOperationsEdges(_Builder):
+    name = "add_same_job_operations_edges"
+
+    def upd(self, h0, g, limit=None):
+        X = G(h0, g)
+        it = Inst(h0, X.I)
+
+        def f(u, v, old):
+            ou, ov = op_of(h0, g, u), op_of(h0, g, v)
+            cond = z3.And(rng(u, 0, it.N), rng(v, 0, it.N), u != v, it.jid(ou) == it.jid(ov))
+            if limit is not None:
+                pu, pv = it.pos(ou), it.pos(ov)
+                cond = z3.And(cond, limit(it.jid(ou), z3.If(pu < pv, pu, pv), z3.If(pu < pv, pv, pu)))
+            return z3.If(cond, z3.IntVal(UNTYPED), old)
+        return f
+
+    def ensures(self, c):
+        h0, h, g = c.h0, c.h, c["graph"]
+        return graph_ok(h, g) + self.kept(c) + [
+            ("exactly-both-directions-between-every-two-operations-of-a-job", edges_updated(h0, h, G(h0, g).nx, self.upd(h0, g)))]
+
+    @property
+    def loops(self):
+        def outer(k):
+            return _loop_common(self, k, lambda j, lo, hi: j < k.i)
+
+        def inner(k):
+            h0, g = k.h0, k["graph"]
+            X0 = G(h0, g)
+            it = Inst(h0, X0.I)
+            j0 = k.outer[-1]
+            n = it.L(j0)
+            return [("row", z3.And(k.v("job") == h0.at(X0.by_job, j0), rng(j0, 0, it.J), k.n == CombN(n)))] + \
+                _loop_common(self, k, lambda j, lo, hi: z3.Or(j < j0, z3.And(j == j0, CombK(n, lo, hi) < k.i)))
+        return {0: LoopSpec("for job in graph.nodes_by_job", outer, _edge_mod),
+                1: LoopSpec("for (operation1, operation2) in itertools.combinations(job, 2)", inner, _edge_mod)}
+
+
+# ---------------------------------------------------------------------------
+# job nodes, global node
+# ---------------------------------------------------------------------------
+def job_nodes(h, g, base, upto=None):
+    """nodes base .. base+upto-1 are the job nodes of jobs 0 .. upto-1, listed in that order in the JOB row"""
+    X = G(h, g)
+    it = Inst(h, X.I)
+    j = bv("jj")
+    n = it.J if upto is None else upto
+    nd = X.node(base + j)
+    row = h.at(X.by_type, T_JOB)
+    return z3.And(
+        h.len(row) == n,
+        forall([j], imp(rng(j, 0, n), z3.And(h.get("node_type", nd) == T_JOB, h.get("_job_id#none", nd) == 0,
+                                             h.get("_job_id", nd) == j, h.at(row, j) == nd)),
+               patterns=[h.at(X.nodes, base + j), h.at(h.at(X.by_type, T_JOB), j)]))
+
+
+def tables_kept(h0, h, g):
+    """the three tables still hold the same row lists (the rows' contents may have grown)"""
+    X0, X = G(h0, g), G(h, g)
+    it = Inst(h0, X0.I)
+    t = bv("kt")
+    return z3.And(
+        forall([t], imp(rng(t, 0, len(NODE_TYPES)), h.at(X.by_type, t) == h0.at(X0.by_type, t)),
+               patterns=[h.at(X.by_type, t), h0.at(X0.by_type, t)]),
+        forall([t], imp(rng(t, 0, it.NM), h.at(X.by_machine, t) == h0.at(X0.by_machine, t)),
+               patterns=[h.at(X.by_machine, t), h0.at(X0.by_machine, t)]),
+        forall([t], imp(rng(t, 0, it.J), h.at(X.by_job, t) == h0.at(X0.by_job, t)),
+               patterns=[h.at(X.by_job, t), h0.at(X0.by_job, t)]))
+
+
+def jbase(h, g):
+    """id of the first job node: recorded by ghost code when the job nodes are added"""
+    return h.get("$jbase", g)
+
+
+@register
+class AddJobNodes(_Builder):
+    name = "add_job_nodes"
+
+    def requires(self, c):
+        h, g = c.h0, c["graph"]
+        X = G(h, g)
+        return op_graph(h, g) + [("no-job-nodes-yet", h.len(h.at(X.by_type, T_JOB)) == 0)]
+
+    def modifies(self, c):
+        h, g = c.h0, c["graph"]
+        X = G(h, g)
+        return Frame(fields={"_next_node_id": [g], "$$gn": [X.nx], "$$mpos": [g], "$jbase": [g]}, lists=graph_lists_frame(h, g),
+                     alloc_objects=NODE_FIELDS + ["$type"])
+
+    def ghost(self, c, st):
+        st.heap = st.heap.put("$jbase", c["graph"], G(c.h0, c["graph"]).n)
+
+    def ensures(self, c):
+        h0, h, g = c.h0, c.h, c["graph"]
+        X0, X = G(h0, g), G(h, g)
+        it = Inst(h0, X0.I)
+        i = bv("gi")
+        return op_graph(h, g) + [
+            ("same-graph-object", same_graph(h0, h, g)),
+            ("one-node-per-job-appended", z3.And(X.n == X0.n + it.J, jbase(h, g) == X0.n, job_nodes(h, g, X0.n))),
+            ("earlier-nodes-kept", forall([i], imp(rng(i, 0, X0.n), X.node(i) == X0.node(i)), patterns=[h.at(X.nodes, i)])),
+            ("tables-kept", tables_kept(h0, h, g)),
+            ("machine-rows-kept", machine_rows_kept(h0, h, g)),
+            ("machine-and-global-type-rows-kept", z3.And(unchanged(h0, h, h0.at(X0.by_type, T_MACHINE)),
+                                                         unchanged(h0, h, h0.at(X0.by_type, T_GLOBAL)))),
+            ("no-edge-changes", h.get("$$ge", X.nx) == h0.get("$$ge", X0.nx))]
+
+    _K = ["same-graph-object", "job-nodes-so-far", "earlier-nodes-kept", "tables-kept", "operation-nodes-listed-under-their-job",
+          "machine-rows-kept", "machine-and-global-type-rows-kept",
+          "fields", "gets-the-next-id-and-is-appended", "listed-under-its-type", "machine-table-keeps-its-rows",
+          "single-machine-operation-nodes-listed-under-their-machine", "G-shape", "T-sizes", "T-layout", "T-type-rows",
+          "T-type-rows-distinct", "T-machine-rows", "inst-refs"]
+    relevant_strict = {"loop0:inv-preserved:earlier-nodes-kept": _K, "loop0:inv-preserved:machine-rows-kept": _K,
+                       "loop0:inv-preserved:tables-kept": _K,
+                       "loop0:inv-preserved:machine-and-global-type-rows-kept": _K}
+
+    @property
+    def loops(self):
+        def inv(k):
+            h0, h, g = k.h0, k.h, k["graph"]
+            X0, X = G(h0, g), G(h, g)
+            it = Inst(h0, X0.I)
+            i = bv("gi")
+            return op_graph(h, g) + [
+                ("same-graph-object", same_graph(h0, h, g)),
+                ("job-nodes-so-far", z3.And(X.n == X0.n + k.i, job_nodes(h, g, X0.n, k.i), k.n == it.J)),
+                ("earlier-nodes-kept", forall([i], imp(rng(i, 0, X0.n), X.node(i) == X0.node(i)), patterns=[h.at(X.nodes, i)])),
+                ("tables-kept", tables_kept(h0, h, g)),
+                ("machine-rows-kept", machine_rows_kept(h0, h, g)),
+                ("machine-and-global-type-rows-kept", z3.And(unchanged(h0, h, h0.at(X0.by_type, T_MACHINE)),
+                                                             unchanged(h0, h, h0.at(X0.by_type, T_GLOBAL)))),
+                ("no-edge-changes", h.get("$$ge", X.nx) == h0.get("$$ge", X0.nx))]
+
+        def mod(k):
+            h0, g = k.h0, k["graph"]
+            X0 = G(h0, g)
+            return Frame(fields={"_next_node_id": [g], "$$gn": [X0.nx], "$$mpos": [g]}, lists=graph_lists_frame(h0, g),
+                         alloc_objects=NODE_FIELDS + ["$type"])
+        return {0: LoopSpec("for job_id in range(graph.instance.num_jobs)", inv, mod)}
+
+
+def with_job_nodes(h, g):
+    X = G(h, g)
+    it = Inst(h, X.I)
+    b = jbase(h, g)
+    return [("job-nodes-present", z3.And(b >= it.N, X.n >= b + it.J, job_nodes(h, g, b)))]
+
+
+@register
+class AddOperationJobEdges(_Builder):
+    name = "add_operation_job_edges"
+
+    def requires(self, c):
+        h, g = c.h0, c["graph"]
+        return op_graph(h, g) + with_job_nodes(h, g)
+
+    def upd(self, h0, g, limit=None):
+        X = G(h0, g)
+        it = Inst(h0, X.I)
+        b = jbase(h0, g)
+
+        def f(u, v, old):
+            def oj(o, jn):
+                cond = z3.And(rng(o, 0, it.N), rng(jn - b, 0, it.J), it.jid(op_of(h0, g, o)) == jn - b)
+                if limit is not None:
+                    cond = z3.And(cond, limit(jn - b, it.pos(op_of(h0, g, o))))
+                return cond
+            return z3.If(z3.Or(oj(u, v), oj(v, u)), z3.IntVal(UNTYPED), old)
+        return f
+
+    def ensures(self, c):
+        h0, h, g = c.h0, c.h, c["graph"]
+        return graph_ok(h, g) + self.kept(c) + [
+            ("exactly-both-directions-between-each-operation-and-its-job-node", edges_updated(h0, h, G(h0, g).nx, self.upd(h0, g)))]
+
+    @property
+    def loops(self):
+        def outer(k):
+            it = Inst(k.h0, G(k.h0, k["graph"]).I)
+            return [("all-jobs", k.n == it.J)] + _loop_common(self, k, lambda j, p: j < k.i)
+
+        def inner(k):
+            h0, g = k.h0, k["graph"]
+            X0 = G(h0, g)
+            it = Inst(h0, X0.I)
+            j0 = k.outer[-1]
+            return [("row", z3.And(k.v("job_node") == X0.node(jbase(h0, g) + j0), rng(j0, 0, it.J),
+                                   k.v("operation_nodes_in_job") == h0.at(X0.by_job, j0), k.n == it.L(j0)))] + \
+                _loop_common(self, k, lambda j, p: z3.Or(j < j0, z3.And(j == j0, p < k.i)))
+        return {0: LoopSpec("for job_node in graph.nodes_by_type[NodeType.JOB]", outer, _edge_mod),
+                1: LoopSpec("for operation_node in operation_nodes_in_job", inner, _edge_mod)}
+
+
+@register
+class AddJobJobEdges(_Builder):
+    name = "add_job_job_edges"
+
+    def requires(self, c):
+        h, g = c.h0, c["graph"]
+        return op_graph(h, g) + with_job_nodes(h, g)
+
+    def upd(self, h0, g, limit=None):
+        X = G(h0, g)
+        it = Inst(h0, X.I)
+        base = jbase(h0, g)
+
+        def f(u, v, old):
+            a, b = u - base, v - base
+            cond = z3.And(rng(a, 0, it.J), rng(b, 0, it.J), a != b)
+            if limit is not None:
+                cond = z3.And(cond, limit(z3.If(a < b, a, b), z3.If(a < b, b, a)))
+            return z3.If(cond, z3.IntVal(UNTYPED), old)
+        return f
+
+    def ensures(self, c):
+        h0, h, g = c.h0, c.h, c["graph"]
+        return graph_ok(h, g) + self.kept(c) + [
+            ("exactly-both-directions-between-every-two-job-nodes", edges_updated(h0, h, G(h0, g).nx, self.upd(h0, g)))]
+
+    @property
+    def loops(self):
+        def inv(k):
+            it = Inst(k.h0, G(k.h0, k["graph"]).I)
+            return [("all-pairs", k.n == CombN(it.J))] + _loop_common(self, k, lambda lo, hi: CombK(it.J, lo, hi) < k.i)
+        return {0: LoopSpec("for (job1, job2) in itertools.combinations(graph.nodes_by_type[NodeType.JOB], 2)", inv, _edge_mod)}
+
+
+def gid(h, g):
+    """id of the global node (recorded by ghost code when it is added)"""
+    return h.get("$gid", g)
+
+
+def global_node(h, g):
+    X = G(h, g)
+    it = Inst(h, X.I)
+    k = gid(h, g)
+    row = h.at(X.by_type, T_GLOBAL)
+    return z3.And(rng(k, it.N, X.n), h.get("node_type", X.node(k)) == T_GLOBAL, h.len(row) == 1, h.at(row, 0) == X.node(k))
+
+
+@register
+class AddGlobalNode(_Builder):
+    name = "add_global_node"
+
+    def requires(self, c):
+        h, g = c.h0, c["graph"]
+        X = G(h, g)
+        return op_graph(h, g) + [("no-global-node-yet", h.len(h.at(X.by_type, T_GLOBAL)) == 0)]
+
+    def modifies(self, c):
+        h, g = c.h0, c["graph"]
+        X = G(h, g)
+        return Frame(fields={"_next_node_id": [g], "$$gn": [X.nx], "$$mpos": [g], "$gid": [g]}, lists=graph_lists_frame(h, g),
+                     alloc_objects=NODE_FIELDS + ["$type"])
+
+    def ghost(self, c, st):
+        st.heap = st.heap.put("$gid", c["graph"], G(c.h0, c["graph"]).n)
+
+    def ensures(self, c):
+        h0, h, g = c.h0, c.h, c["graph"]
+        X0, X = G(h0, g), G(h, g)
+        i = bv("gi")
+        return op_graph(h, g) + [
+            ("same-graph-object", same_graph(h0, h, g)),
+            ("one-global-node-appended", z3.And(X.n == X0.n + 1, gid(h, g) == X0.n, global_node(h, g))),
+            ("earlier-nodes-kept", forall([i], imp(rng(i, 0, X0.n), X.node(i) == X0.node(i)), patterns=[h.at(X.nodes, i)])),
+            ("tables-kept", tables_kept(h0, h, g)),
+            ("machine-rows-kept", machine_rows_kept(h0, h, g)),
+            ("machine-and-job-type-rows-kept", z3.And(unchanged(h0, h, h0.at(X0.by_type, T_MACHINE)),
+                                                      unchanged(h0, h, h0.at(X0.by_type, T_JOB)))),
+            ("no-edge-changes", h.get("$$ge", X.nx) == h0.get("$$ge", X0.nx))]
+
+
+class _GlobalEdges(_Builder):
+    kind = ""
+
+    def base(self, h, g):
+        X = G(h, g)
+        it = Inst(h, X.I)
+        return (it.N, it.NM) if self.kind == "machine" else (jbase(h, g), it.J)
+
+    def requires(self, c):
+        h, g = c.h0, c["graph"]
+        pre = with_machine_nodes(h, g) if self.kind == "machine" else with_job_nodes(h, g)
+        return op_graph(h, g) + pre + [("global-node-present", global_node(h, g))]
+
+    def upd(self, h0, g, limit=None):
+        b, n = self.base(h0, g)
+        k = gid(h0, g)
+
+        def f(u, v, old):
+            def ge_(x, y):
+                cond = z3.And(x == k, rng(y - b, 0, n))
+                if limit is not None:
+                    cond = z3.And(cond, limit(y - b))
+                return cond
+            return z3.If(z3.Or(ge_(u, v), ge_(v, u)), z3.IntVal(UNTYPED), old)
+        return f
+
+    def ensures(self, c):
+        h0, h, g = c.h0, c.h, c["graph"]
+        return graph_ok(h, g) + self.kept(c) + [
+            (f"exactly-both-directions-between-the-global-node-and-every-{self.kind}-node",
+             edges_updated(h0, h, G(h0, g).nx, self.upd(h0, g)))]
+
+    @property
+    def loops(self):
+        def inv(k):
+            h0, g = k.h0, k["graph"]
+            X0 = G(h0, g)
+            b, n = self.base(h0, g)
+            return [("global-node", z3.And(k.v("global_node") == X0.node(gid(h0, g)), k.n == n))] + \
+                _loop_common(self, k, lambda t: t < k.i)
+        row = "MACHINE" if self.kind == "machine" else "JOB"
+        return {0: LoopSpec(f"for {self.kind}_node in graph.nodes_by_type[NodeType.{row}]", inv, _edge_mod)}
+
+
+@register
+class AddMachineGlobalEdges(_GlobalEdges):
+    name = "add_machine_global_edges"
+    kind = "machine"
+
+
+@register
+class AddJobGlobalEdges(_GlobalEdges):
+    name = "add_job_global_edges"
+    kind = "job"
+
+
+# ---------------------------------------------------------------------------
+# the three agent-task graphs
+# ---------------------------------------------------------------------------
+class _BuildAgentTask(Contract):
+    properties = ("C16",)
+    params = {"instance": REF("JobShopInstance")}
+    ret = REF("JobShopGraph")
+    defaultdict_size = len(NODE_TYPES)
+    with_jobs = False
+    with_global = False
+    machine_machine = False
+    same_job = False
+    job_job = False
+
+    def requires(self, c):
+        from .instance import numbered
+        h, I = c.h0, c["instance"]
+        return valid_instance(h, I) + cum_facts(h, I) + [("operations-numbered", numbered(h, I)),
+                                                         ("non-flexible-instance", non_flexible(h, I))]
+
+    def modifies(self, c):
+        return Frame(alloc_objects=NODE_FIELDS + GRAPH_FIELDS + ["$type", "$$gn", "$$ge", "$$mpos", "$jbase", "$gid"],
+                     alloc_lists=True)
+
+    _NODES = ["one-node-per-machine-after-the-operation-nodes", "one-node-per-job-appended", "one-global-node-appended",
+              "earlier-nodes-kept", "tables-kept", "machine-and-global-type-rows-kept", "machine-and-job-type-rows-kept",
+              "job-and-global-type-rows-kept", "same-graph-object", "instance-kept", "operation-nodes-first",
+              "with-operation-nodes:one-node-per-operation-with-node-id=operation-id", "new-networkx-graph-and-lists",
+              "G-shape", "G-node-ids", "T-sizes", "T-layout", "T-type-rows", "T-type-rows-distinct", "inst-refs", "inst-jobs",
+              "inst-ops", "inst-index-bound", "operations-numbered"]
+    relevant_strict = {
+        "count": _NODES, "operation-nodes-first-by-id": _NODES, "then-machine-nodes": _NODES, "then-job-nodes": _NODES,
+        "then-the-global-node": _NODES,
+        "machine-nodes-present": _NODES, "job-nodes-present": _NODES, "global-node-present": _NODES,
+        "no-job-nodes-yet": _NODES + ["with-operation-nodes:one-node-per-operation-with-node-id=operation-id"],
+        "no-global-node-yet": _NODES}
+
+    def ensures(self, c):
+        h0, h, I, g = c.h0, c.h, c["instance"], c.result
+        X = G(h, g)
+        it = Inst(h0, I)
+        N, NM, J = it.N, it.NM, it.J
+        u, v = bv("eu"), bv("ev")
+        ou, ov = op_of(h, g, u), op_of(h, g, v)
+        total = N + NM + (J if self.with_jobs else 0) + (1 if self.with_global else 0)
+        jb, gk = N + NM, N + NM + J
+
+        def om(o, m):
+            return z3.And(rng(o, 0, N), rng(m - N, 0, NM), mach0(h0, op_of(h, g, o)) == m - N)
+
+        def oj(o, jn):
+            return z3.And(rng(o, 0, N), rng(jn - jb, 0, J), it.jid(op_of(h, g, o)) == jn - jb)
+        conds = [om(u, v), om(v, u)]
+        if self.machine_machine:
+            conds.append(z3.And(rng(u - N, 0, NM), rng(v - N, 0, NM), u != v))
+        if self.same_job:
+            conds.append(z3.And(rng(u, 0, N), rng(v, 0, N), u != v, it.jid(ou) == it.jid(ov)))
+        if self.with_jobs:
+            conds += [oj(u, v), oj(v, u)]
+        if self.job_job:
+            conds.append(z3.And(rng(u - jb, 0, J), rng(v - jb, 0, J), u != v))
+        if self.with_global:
+            conds += [z3.And(u == gk, rng(v - N, 0, NM + J)), z3.And(v == gk, rng(u - N, 0, NM + J))]
+        want = z3.If(z3.Or(conds), z3.IntVal(UNTYPED), z3.IntVal(0))
+        out = [
+            ("a-new-graph-of-this-instance", z3.And(g >= h0.alloc, g < h.alloc, X.I == I)),
+            ("one-node-per-entity:count", X.n == total),
+            ("one-node-per-entity:operation-nodes-first-by-id", z3.And(op_nodes(h, g, I), op_nodes_by_index(h, g, I, N))),
+            ("one-node-per-entity:then-machine-nodes", machine_nodes(h, g)),
+            ("one-node-per-entity:then-job-nodes", job_nodes(h, g, jb) if self.with_jobs else z3.BoolVal(True)),
+            ("one-node-per-entity:then-the-global-node",
+             z3.And(gid(h, g) == gk, global_node(h, g)) if self.with_global else z3.BoolVal(True)),
+            ("exactly-the-prescribed-edges", forall([u, v], ge(h, X.nx, u, v) == want,
+                                                    patterns=[z3.Select(h.get("$$ge", X.nx), Pair(u, v))])),
+        ]
+        return out + graph_ok(h, g)
+
+
+@register
+class BuildAgentTaskGraph(_BuildAgentTask):
+    name = "build_agent_task_graph"
+    machine_machine = True
+    same_job = True
+
+
+@register
+class BuildAgentTaskGraphWithJobs(_BuildAgentTask):
+    name = "build_agent_task_graph_with_jobs"
+    with_jobs = True
+    machine_machine = True
+    job_job = True
+
+
+@register
+class BuildCompleteAgentTaskGraph(_BuildAgentTask):
+    name = "build_complete_agent_task_graph"
+    with_jobs = True
+    with_global = True
